@@ -33,8 +33,9 @@ type Op struct {
 	Modes     []string `json:"modes,omitempty"`
 	MutOp     string   `json:"mutop,omitempty"` // put del lock insert cne
 	Value     string   `json:"value,omitempty"`
-	MinCommit uint64   `json:"mincommit,omitempty"` // raw ts
+	MinCommit uint64   `json:"mincommit,omitempty"` // raw ts (prewrite and plock)
 	ForUpdate uint64   `json:"forupdate,omitempty"` // raw ts
+	TTL       uint64   `json:"ttl,omitempty"`       // prewrite and plock: lock ttl (ms) the request asks for; 0 = lockTTL
 	// plock
 	ReturnValues     bool `json:"rv,omitempty"`
 	CheckExistence   bool `json:"ce,omitempty"`
@@ -67,6 +68,14 @@ func u(ts uint64) string {
 	return fmt.Sprintf("%d+%d", ts/U, ts%U)
 }
 
+// ttl is the lock ttl a prewrite / pessimistic lock request carries.
+func (o Op) ttl() uint64 {
+	if o.TTL == 0 {
+		return lockTTL
+	}
+	return o.TTL
+}
+
 func (o Op) String() string {
 	ks := strings.Join(o.Keys, ",")
 	switch o.Kind {
@@ -75,7 +84,11 @@ func (o Op) String() string {
 		if len(o.Modes) > 0 {
 			m = strings.Join(o.Modes, "/")
 		}
-		return fmt.Sprintf("T%d.prewrite[%s %s](%s pri=%s mc=%s fu=%s)", o.T, m, o.MutOp, ks, o.Primary, u(o.MinCommit), u(o.ForUpdate))
+		t := ""
+		if o.TTL != 0 {
+			t = fmt.Sprintf(" ttl=%d", o.TTL)
+		}
+		return fmt.Sprintf("T%d.prewrite[%s %s](%s pri=%s mc=%s fu=%s%s)", o.T, m, o.MutOp, ks, o.Primary, u(o.MinCommit), u(o.ForUpdate), t)
 	case "plock":
 		f := ""
 		if o.ReturnValues {
@@ -89,6 +102,12 @@ func (o Op) String() string {
 		}
 		if o.ForceLock {
 			f += " force"
+		}
+		if o.TTL != 0 {
+			f += fmt.Sprintf(" ttl=%d", o.TTL)
+		}
+		if o.MinCommit != 0 {
+			f += " mc=" + u(o.MinCommit)
 		}
 		return fmt.Sprintf("T%d.plock(%s pri=%s fu=%s%s)", o.T, ks, o.Primary, u(o.ForUpdate), f)
 	case "prollback":
@@ -138,6 +157,7 @@ type txnSpec struct {
 
 // config is the finite pool of one tier.
 type config struct {
+	plan     string // "" = the general alphabet; "ttlmc" = the lock-field plan (ttlmc.go)
 	keys     []string
 	txns     []txnSpec
 	endBound string   // a key bound after the last key
@@ -189,6 +209,9 @@ func makeConfig(nKeys, nTxns int) config {
 // alphabet lists the commands, simplest first. It varies one dimension at a
 // time around a base form (full cross products would be thousands of commands).
 func (c config) alphabet() []Op {
+	if c.plan == planTTLMC {
+		return c.ttlmcAlphabet()
+	}
 	var ops []Op
 	other := func(k string) string {
 		for _, x := range c.keys {
